@@ -623,7 +623,7 @@ Proof.
 Qed.
 
 (* ---------- composition with the form handler (C14): pages served after a saved form ---------- *)
-From V Require C14.Model C14.Proofs Gen.C14Vars.
+From V Require C14.Model C14.Proofs C14.Fields Gen.C14Vars.
 
 Lemma layouts_agree :
   C14Vars.O_Email = OFF_EMAIL /\ C14Vars.Z_Email = SZ_EMAIL /\ C14Vars.CFG_SIZE = CFG_SIZE /\
@@ -659,4 +659,35 @@ Proof.
   intros sg sgf d segs D. cbv zeta. pose proof (stored_email_terminated sgf d segs D) as E.
   split; [exact E|]. intros Hs Hv Hp v c2 nm mc stt dd add L.
   apply C15_noninterference_thm; [constructor; assumption | exact L].
+Qed.
+
+(* ---------- full composition: every printed field is terminated in place after any saved form ---------- *)
+Lemma sizes_agree :
+  C14Vars.Z_WIFI_SSID = SZ_SSID /\ C14Vars.Z_Server = SZ_SERVER /\ C14Vars.Z_MqttTopicPrefix = SZ_PREFIX.
+Proof. vm_compute. repeat split. Qed.
+
+(* a stored image in the sense of C14 (dev_ok /\ dev_ok2) is wf_cfg in the sense of C15 *)
+Lemma wf_of_dev_ok d : C14.Proofs.dev_ok d -> C14.Fields.dev_ok2 d -> wf_cfg (C14.Model.dcfg d).
+Proof.
+  intros D D2. destruct layouts_agree as [E1 [E2 [_ [E4 [E5 [E6 _]]]]]]. destruct sizes_agree as [S1 [S2 S3]].
+  assert (T : forall o z, In (o, z) C14.Fields.TF4 -> terminated (C14.Model.dcfg d) o z).
+  { intros o z H. destruct (D2 (o, z) H) as [k [Hk Hz]]. exists k. split; assumption. }
+  constructor.
+  - rewrite <- E4, <- S1. apply T. cbn; auto.
+  - rewrite <- E5, <- S2. apply T. cbn; auto.
+  - destruct (C14.Proofs.d_email d D) as [k [Hk Hz]]. rewrite E1, E2 in *. exists k. split; assumption.
+  - rewrite <- E6, <- S3. apply T. cbn; auto.
+Qed.
+
+Theorem C15_after_saved_form_thm : forall sg sgf d segs,
+  C14.Proofs.dev_ok d -> C14.Fields.dev_ok2 d ->
+  let c1 := stored_after sgf d segs in
+  wf_cfg c1 /\
+  forall v c2 nm mc stt dd add, low_equiv c1 c2 ->
+    observable sg v (mkenv c1 nm mc stt dd) add = observable sg v (mkenv c2 nm mc stt dd) add.
+Proof.
+  intros sg sgf d segs D D2. cbv zeta. unfold stored_after.
+  pose proof (C14.Fields.C14_text_fields_thm sgf segs d D D2) as H. cbv zeta in H. destruct H as [H1 H2].
+  pose proof (wf_of_dev_ok _ H1 H2) as W. split; [exact W|].
+  intros v c2 nm mc stt dd add L. apply C15_noninterference_thm; assumption.
 Qed.
